@@ -498,3 +498,37 @@ M('c07-asgi-content-length-falls-back-to-x-header', 'C07', 'R6', 'falcon/asgi/re
         except KeyError:
             value = self._asgi_headers.get(b'x-content-length', b'')
 """, also=('C06',))
+
+# ------------------------------------------------------------------ auto-mutation sweep (sa-am*)
+_EXH_HEAD = "        self._buffer = b''\n\n        while self._bytes_remaining > 0:\n"
+# R5 loop-boundary (sa-am01001 / sa-am01055): the guard of a receive loop has its boundary exactly at budget > 0
+M('c07-asgi-exhaust-guard-never-true', 'C07', 'R5', A, _EXH_HEAD, _EXH_HEAD.replace('> 0', '< 0'))
+M('c07-asgi-exhaust-guard-leaves-last-byte', 'C07', 'R5', A, _EXH_HEAD, _EXH_HEAD.replace('> 0', '> 1'))
+M('c07-asgi-exhaust-guard-ge-two', 'C07', 'R5', A, _EXH_HEAD, _EXH_HEAD.replace('> 0', '>= 2'))
+M('c07-asgi-read-guard-leaves-last-byte', 'C07', 'R5', A,
+  "        while self._bytes_remaining > 0 and num_bytes_available < size:", "        while self._bytes_remaining > 1 and num_bytes_available < size:")
+M2('c07-asgi-readall-guard-leaves-last-byte', 'C07', 'R5', [{
+    'file': A, 'old': "            chunks = []\n\n        while self._bytes_remaining > 0:\n",
+    'new': "            chunks = []\n\n        while 1 < self._bytes_remaining:\n", 'count': 1, 'occurrence': 0}])
+# R4 event classification (sa-am01056): an event's body is left unread only for a disconnect / an event without 'body'
+M('c07-asgi-exhaust-every-request-event-is-a-disconnect', 'C07', 'R4', A,
+  "            if event['type'] == 'http.disconnect':\n                self._bytes_remaining = 0\n",
+  "            if event['type'] != 'http.disconnect':\n                self._bytes_remaining = 0\n")
+M('c07-asgi-exhaust-drops-events-without-more-body-unread', 'C07', 'R4', A,
+  "            if event['type'] == 'http.disconnect':\n                self._bytes_remaining = 0\n",
+  "            if event['type'] == 'http.disconnect' or not event.get('more_body'):\n                self._bytes_remaining = 0\n")
+# R5 indexing (sa-am01104 / sa-am01120): chunks[0] needs a proof that the list is not empty
+M('c07-asgi-readall-indexes-empty-chunk-list', 'C07', 'R5', A,
+  "        data = chunks[0] if len(chunks) == 1 else b''.join(chunks)", "        data = chunks[0] if len(chunks) == 0 else b''.join(chunks)")
+M('c07-asgi-read-indexes-empty-chunk-list', 'C07', 'R5', A,
+  "        self._buffer = chunks[0] if len(chunks) == 1 else b''.join(chunks)", "        self._buffer = chunks[0] if len(chunks) == 0 else b''.join(chunks)")
+M('c07-asgi-readall-indexes-short-chunk-list', 'C07', 'R5', A,
+  "        data = chunks[0] if len(chunks) == 1 else b''.join(chunks)", "        data = chunks[0] if len(chunks) < 2 else b''.join(chunks)")
+M('c07-asgi-read-indexes-unguarded', 'C07', 'R5', A,
+  "        self._buffer = chunks[0] if len(chunks) == 1 else b''.join(chunks)", "        self._buffer = b''.join(chunks) if len(chunks) > 1 else chunks[0]")
+# R6 zero fallback (sa-am02024): the budget standing in for an invalid / a missing Content-Length is 0
+M('c07-wsgi-invalid-content-length-one-byte-allowance', 'C07', 'R6', _R,
+  "            # but it had an invalid value. Assume no content.\n            content_length = 0\n",
+  "            # but it had an invalid value. Assume no content.\n            content_length = 1\n")
+M('c07-wsgi-missing-content-length-one-byte-allowance', 'C07', 'R6', _R,
+  "            content_length = self.content_length or 0\n", "            content_length = self.content_length or 1\n")
